@@ -184,7 +184,7 @@ def run(pid, tier, seed, replay=None):
         raise ToolError("BinaryWire no longer reproduces the examples of docs/binary.md:\n" + r["out"][-1500:])
 
     plans = [("mixed", seed, 160 if quick else 2500, 6), ("unknown", seed + 1, 50 if quick else 800, 5),
-             ("known", seed + 2, 60 if quick else 1200, 8)]
+             ("known", seed + 2, 60 if quick else 1200, 8), ("columns", seed + 3, 120 if quick else 2500, 6)]
     total = 0
     nontrivial = 0
     samples = []
